@@ -144,6 +144,10 @@ macro_rules! api_table {
                         o((0..len).map(|k| base[k % 3] * (1.0 + (k as f64) / 1048576.0)).sum::<TwoFloat>())
                     }),
                     e!("sum[f,g]", FF, false, |x: &Args| o([x.f, x.g].iter().sum::<TwoFloat>())),
+                    // cancelling sequences: a big term, a smaller one, the big one's negation, a still smaller term
+                    e!("sum[f,g,-f,g*3u] (f64 by value)", FF, false, |x: &Args| o(vec![x.f, x.g, -x.f, x.g * 3.3306690738754696e-16].into_iter().sum::<TwoFloat>())),
+                    e!("sum[f,g,-f,g*3u,-g] (&f64)", FF, false, |x: &Args| o([x.f, x.g, -x.f, x.g * 3.3306690738754696e-16, -x.g].iter().sum::<TwoFloat>())),
+                    e!("sum[a,b,-a,c] (TwoFloat by value)", ABC, false, |x: &Args| o(vec![t(x.a), t(x.b), -t(x.a), t(x.c)].into_iter().sum::<TwoFloat>())),
                     e!("Inv::inv", A, true, |x: &Args| o(num_traits::Inv::inv(t(x.a)))),
                     e!("Pow<i16>", AN, true, |x: &Args| o(num_traits::Pow::pow(t(x.a), x.n as i16))),
                     e!("Pow<TwoFloat>", AB, true, |x: &Args| o(num_traits::Pow::pow(t(x.a), t(x.b)))),
